@@ -224,13 +224,20 @@ def match_finding(findings, pid, key):
 # ---------------------------------------------------------------------------
 # shrinking
 
-def shrink(prop, tape_values, spans, key, budget_s=20.0, max_exec=400):
-    """Minimise a failing tape while the same violation class persists."""
+def shrink(prop, tape_values, spans, key, budget_s=45.0, max_exec=1500):
+    """Minimise a failing tape while the same violation class persists:
+    (1) delta-debugging over the generator's spans (operations, transfers, steps),
+    (2) truncation of the tail, (3) zeroing / halving of single choices."""
     t0 = time.time()
-    best = list(tape_values)
     execs = [0]
 
-    def fails(cand):
+    def strip(v):
+        v = list(v)
+        while v and v[-1] == 0:
+            v.pop()
+        return v
+
+    def run(cand):
         if execs[0] >= max_exec or time.time() - t0 > budget_s:
             return None
         execs[0] += 1
@@ -239,72 +246,92 @@ def shrink(prop, tape_values, spans, key, budget_s=20.0, max_exec=400):
             return out
         return None
 
-    def current_spans(vals):
-        out = run_one(prop, replay=vals)
-        return out.ctx.tape.spans if out.ctx is not None else []
+    best = strip(tape_values)
+    first = run(best)
+    if first is None:
+        return best, execs[0]
+    cur_spans = first.ctx.tape.spans
 
-    # strip trailing zeros (missing entries read as 0)
-    def strip(v):
-        v = list(v)
-        while v and v[-1] == 0:
-            v.pop()
-        return v
+    def top_level(spans, n):
+        # maximal spans, in tape order, inside the current tape
+        sp = sorted(set((a, b) for a, b, _ in spans if b > a and a < n), key=lambda x: (x[0], -x[1]))
+        out = []
+        end = -1
+        for a, b in sp:
+            if a >= end:
+                out.append((a, b))
+                end = b
+        return out
 
-    best = strip(best)
-    improved = True
-    rounds = 0
-    while improved and rounds < 6 and time.time() - t0 < budget_s and execs[0] < max_exec:
+    for _round in range(4):
         improved = False
-        rounds += 1
-        # 1. delete spans, largest first
-        sp = sorted(set(current_spans(best)), key=lambda s: (s[0] - s[1], s[0]))
-        i = 0
-        while i < len(sp):
-            a, b, _ = sp[i]
-            if b <= a or a >= len(best):
-                i += 1
-                continue
-            cand = strip(best[:a] + best[b:])
-            r = fails(cand)
-            if r is not None:
-                best = strip(r.tape)
-                if len(best) > len(cand):
-                    best = cand
-                improved = True
-                sp = sorted(set(current_spans(best)), key=lambda s: (s[0] - s[1], s[0]))
-                i = 0
-                continue
-            i += 1
-        # 2. truncate the tail
-        n = len(best)
-        cut = n // 2
-        while cut >= 1:
-            cand = strip(best[:len(best) - cut])
-            if len(cand) < len(best):
-                r = fails(cand)
+        # 1. ddmin over top-level spans, then over all spans one by one
+        sp = top_level(cur_spans, len(best))
+        n = 2
+        while sp and execs[0] < max_exec and time.time() - t0 < budget_s:
+            chunk = max(1, (len(sp) + n - 1) // n)
+            hit = False
+            for i in range(0, len(sp), chunk):
+                part = sp[i:i + chunk]
+                cand = list(best)
+                for a, b in reversed(part):
+                    del cand[a:b]
+                cand = strip(cand)
+                r = run(cand)
                 if r is not None:
                     best = cand
+                    cur_spans = r.ctx.tape.spans
+                    sp = top_level(cur_spans, len(best))
+                    n = max(n - 1, 2)
+                    hit = True
+                    improved = True
+                    break
+            if not hit:
+                if chunk == 1:
+                    break
+                n = min(n * 2, len(sp))
+        inner = sorted(set((a, b) for a, b, _ in cur_spans if b > a and a < len(best)), key=lambda x: (x[0] - x[1]))
+        for a, b in inner[:60]:
+            if b > len(best):
+                continue
+            cand = strip(best[:a] + best[b:])
+            r = run(cand)
+            if r is not None:
+                best = cand
+                cur_spans = r.ctx.tape.spans
+                improved = True
+                break
+        # 2. truncate the tail
+        cut = len(best) // 2
+        while cut >= 1 and execs[0] < max_exec:
+            cand = strip(best[:len(best) - cut])
+            if len(cand) < len(best):
+                r = run(cand)
+                if r is not None:
+                    best = cand
+                    cur_spans = r.ctx.tape.spans
                     improved = True
                     continue
             cut //= 2
         # 3. zero, then halve individual choices
-        for i in range(len(best)):
-            if i >= len(best):
-                break
-            if best[i] == 0:
-                continue
-            for nv in (0, best[i] // 2, best[i] - 1):
-                if nv >= best[i] or nv < 0:
-                    continue
-                cand = list(best)
-                cand[i] = nv
-                r = fails(strip(cand))
-                if r is not None:
-                    best = strip(cand)
-                    improved = True
-                    break
-            if time.time() - t0 > budget_s or execs[0] >= max_exec:
-                break
+        i = 0
+        while i < len(best) and execs[0] < max_exec and time.time() - t0 < budget_s:
+            if best[i] != 0:
+                for nv in (0, best[i] // 2, best[i] - 1):
+                    if nv >= best[i] or nv < 0:
+                        continue
+                    cand = list(best)
+                    cand[i] = nv
+                    cand = strip(cand)
+                    r = run(cand)
+                    if r is not None:
+                        best = cand
+                        cur_spans = r.ctx.tape.spans
+                        improved = True
+                        break
+            i += 1
+        if not improved:
+            break
     return best, execs[0]
 
 
